@@ -6,6 +6,19 @@
 #include <random>
 #include <type_traits>
 
+#ifdef NANO_VERIF
+    #include <atomic>
+    #include <cstdint>
+
+namespace nano::verif
+{
+///
+/// \brief verification-only: when non-zero, make_rng() without a seed becomes deterministic (see /verif).
+///
+NANO_PUBLIC std::atomic<uint64_t>& rng_seed();
+} // namespace nano::verif
+#endif
+
 namespace nano
 {
 using rng_t = std::minstd_rand;
